@@ -127,6 +127,7 @@ func NewSim(seed uint64, policy int) *Sim {
 	s.trace = make([]traceEv, 0, 512)
 	s.main = &Task{ID: 0, Name: "main", rng: splitmix(seed ^ 0xabcdef), factor: 1}
 	s.cur = s.main
+	setWatchSim(s)
 	return s
 }
 
